@@ -32,7 +32,7 @@ const (
 	sigMixedChunk = "mixed-layout|aggregate|inner-chunk-smaller-than-record"
 	// the descending variant of the same cursor defect on a series that sits in several
 	// time-ordered files + the memtable (ascending answers are right there)
-	sigOrderedDescChunk = "ordered-files-layout|desc|bytime-aggregate|inner-chunk-smaller-than-record"
+	sigOrderedDescChunk = "ordered-files-layout|desc|bytime-aggregate"
 	sigMetaPrev         = "metamorphic-only|desc|fill(previous)|differs-from-the-ascending-answer-reversed"
 	sigMetaPhantom      = "metamorphic-only|field-filter|aggregate|null-rows-of-phantom-windows-differ-between-cells"
 	sigMetaFill         = "metamorphic-only|bytime-fill-split-across-chunks|cells-differ"
@@ -153,7 +153,7 @@ func attribute(q *querySpec, cl cell, rows []mrow, schema map[string]byte, obs *
 	if (q.Interval > 0 || hasField) && cl.Layout == "mixed" && cl.Inner < 1024 {
 		return []finding{{sigMixedChunk, mm.String()}}
 	}
-	if q.Interval > 0 && cl.Layout == "ordered4" && cl.Desc && cl.Inner < 1024 {
+	if q.Interval > 0 && cl.Layout == "ordered4" && cl.Desc {
 		return []finding{{sigOrderedDescChunk, mm.String()}}
 	}
 	// row-level attribution against the expectation under the deterministic defect models
